@@ -38,7 +38,7 @@ LEVEL_TEXT = ('Proved in Lean for histories of every length and content: an obje
               'really reads/writes only the listed fields (static analysis of self.X accesses; aliasing through locals, class-level mutable '
               'data, module globals and the PLY objects are outside it) - this is what the scrambling/snapshot runs, the shared-object '
               'histories and the hash-seed subprocess runs check on every run (partial). MibCompiler keeps all per-call state in locals: its table of written fields is empty (C12_covered_compiler) and the '
-              'histories exercise it.')
+              'histories exercise it. Class-level mutable data is covered by a second static table: no function of any of the 48 modules stores into an object that lives at class level (C12_no_class_level_state), which is the state that would cross objects and lexer / parser dialects; the dialect histories (fresh parsers of different dialects in one interpreter vs each step in an interpreter of its own) exercise that.')
 LEVEL_NOTE = ('Trusted: Lean kernel + standard axioms; harness/fieldflow.py (static analysis) and translate.py; the harness; CPython set/dict '
               'semantics; PLY.')
 ASSUMPTIONS = ['the error message of "Unknown parent symbol" may name a different one of several unknown parents under another hash seed; '
